@@ -599,6 +599,13 @@ func (s *Module) AddMPTNodes(nodes [][]byte) error {
 		if t := n.Node.Type(); t == mpt.HashT || t == mpt.EmptyT {
 			return fmt.Errorf("unexpected MPT node of type %d", t)
 		}
+		// Children are referenced by hash in a stored node. The node's hash is
+		// calculated over that form, so a node with a child serialized in place
+		// has the requested hash too, but its children would never be requested.
+		// Compare what was decoded (trailing bytes are ignored) with that form.
+		if !bytes.Equal(n.Node.Bytes(), nBytes[:len(nBytes)-r.Len()]) {
+			return errors.New("MPT node is not in its canonical form")
+		}
 		err := s.restoreNode(n.Node)
 		if err != nil {
 			return err
